@@ -67,11 +67,11 @@ Definition jl : table := [[VInt 1; VInt 1]; [VInt 2; VInt 1]].
 Definition jr : table := [[VInt 1; VInt 1; VInt 10]].
 Definition q_join := mkQ None [ECol 1] [mkAgg FCountStar (ECol 0)] [0%nat; 1%nat] None.
 (* SELECT t.c1, COUNT( * ) FROM t JOIN u ON t.c1 = u.c1 GROUP BY t.c1: one group (1, 2) is demanded;
-   the hand-written path groups the PROJECTED rows by their second entry (t.id, which stands in for
-   COUNT( * )) and returns (1, 1), (2, 1) *)
+   the hand-written path groups the PROJECTED rows by their second entry (the NULL that stands in for
+   COUNT( * )) and returns (NULL, 2) *)
 Lemma join_agg_refuted_l :
   spec_join_query jl jr 1 1 q_join = SRows [[VInt 1; VInt 2]] /\
-  model_join_query jl jr 1 1 q_join = MRows [[VInt 1; VInt 1]; [VInt 2; VInt 1]].
+  model_join_query jl jr 1 1 q_join = MRows [[VNull; VInt 2]].
 Proof. split; vm_compute; reflexivity. Qed.
 (* ... and without any joined row it returns no row where COUNT( * ) = 0 is demanded *)
 Lemma join_agg_empty_refuted_l :
